@@ -34,6 +34,19 @@ theorem at_walkOf (l : Layer) (c : Comps) : (walkOf l).at c = (l.get c).map kind
         rw [this]; exact h
       simp [this]
 
+theorem at_dir_iff (l : Layer) (c : Comps) : (walkOf l).at c = some .dir ↔ l.get c = some .dir := by
+  rw [at_walkOf]
+  cases l.get c with
+  | none => simp
+  | some n => cases n <;> simp [kindOf]
+
+theorem notFile_walkOf (l : Layer) (a : Comps) :
+    Spec.Overlay.notFile ((walkOf l).at a) = !Layer.isFileNode (l.get a) := by
+  rw [at_walkOf]
+  cases l.get a with
+  | none => rfl
+  | some n => cases n <;> rfl
+
 theorem stat_of_locOf (l : Layer) {p : Bytes} {q : Loc} (h : locOf p = some q) :
     l.stat p = match l.get q.comps with
       | some .dir => some .dir
